@@ -89,6 +89,22 @@ fn main() {
         c02::debug_parse(&args[1], &args[2]);
         return;
     }
+    if args[0] == "fmt" {
+        // mc fmt <file.prql> : formatter output, twice (debug aid)
+        let txt = std::fs::read_to_string(&args[1]).expect("read");
+        match prqlc::prql_to_pl(&txt).and_then(|pl| prqlc::pl_to_prql(&pl)) {
+            Ok(s1) => {
+                println!("{s1}");
+                match prqlc::prql_to_pl(&s1).and_then(|pl| prqlc::pl_to_prql(&pl)) {
+                    Ok(s2) if s2 == s1 => println!("-- second pass: identical"),
+                    Ok(s2) => println!("-- second pass differs:\n{s2}"),
+                    Err(e) => println!("-- formatted output does not parse: {e}"),
+                }
+            }
+            Err(e) => println!("ERR {e}"),
+        }
+        return;
+    }
     if args[0] == "show" {
         // mc show <file.prql> : RQ JSON and SQL for the executable targets (debug aid)
         let txt = std::fs::read_to_string(&args[1]).expect("read");
